@@ -73,6 +73,10 @@ func (fv *FuncVerifier) namedSeqLit(st *State, seq Sort, elems []Term) Term {
 		}
 	}
 	c := fv.fresh("lit", seq)
+	if fv.litElems == nil {
+		fv.litElems = map[string][]Term{}
+	}
+	fv.litElems[c.S] = append([]Term(nil), elems...)
 	st.Assume(App(SBool, "=", c, fv.w.SeqLit(seq, elems)))
 	st.Assume(App(SBool, "=", fv.w.SeqLen(c), IntLit(int64(len(elems)))))
 	for i, e := range elems {
@@ -825,7 +829,7 @@ func (e *Env) oldBinds() map[types.Object]Term {
 // ---- yield (iterator bodies verified as units) ----
 
 func (fv *FuncVerifier) isYieldParam(v *types.Var) bool {
-	return fv.yieldVar != nil && v == fv.yieldVar
+	return fv.yieldVar != nil && (v == fv.yieldVar || fv.yieldAliases[v])
 }
 
 func (fv *FuncVerifier) callYield(st *State, env *Env, call *ast.CallExpr) []Term {
@@ -977,6 +981,30 @@ func (fv *FuncVerifier) inlineRepoFunc(st *State, env *Env, call *ast.CallExpr, 
 				if o := info.Defs[n]; o != nil {
 					st.vars[o] = fv.coerce(recv, fv.sortOf(o.Type()))
 				}
+			}
+		}
+	}
+	// an inlined helper that is handed the iterator's yield function calls THAT function: its parameter is an alias
+	if fv.yieldVar != nil {
+		k := 0
+		for _, f := range fi.Decl.Type.Params.List {
+			for _, n := range f.Names {
+				if k < len(call.Args) {
+					if id, ok := ast.Unparen(call.Args[k]).(*ast.Ident); ok {
+						if av, ok := env.info.ObjectOf(id).(*types.Var); ok && fv.isYieldParam(av) {
+							if pv, ok := info.Defs[n].(*types.Var); ok {
+								if fv.yieldAliases == nil {
+									fv.yieldAliases = map[*types.Var]bool{}
+								}
+								fv.yieldAliases[pv] = true
+							}
+						}
+					}
+				}
+				k++
+			}
+			if len(f.Names) == 0 {
+				k++
 			}
 		}
 	}
